@@ -18,6 +18,12 @@ Check (C09_optional_present :
     (validate_optional prog (Some a) ls = Ok true <-> Forall (layer_ok a) ls)).
 Check (C09_optional_placeholder :
   forall prog a ls, key_ok prog -> key_ok (a_key a) -> a_key a = prog -> validate_optional prog (Some a) ls = Ok false).
+Check (C09_vec_accepts_iff_every_account :
+  forall accs ls form k, Forall acct_ok accs -> Forall layer_wf ls ->
+    (validate_vec accs ls form k = Ok tt <-> args_fit form k (zlen accs) /\ Forall (fun a => Forall (layer_ok a) ls) accs)).
+Check (C09_vec_no_account_skipped :
+  forall accs ls form k a, Forall acct_ok accs -> Forall layer_wf ls -> In a accs -> ~ Forall (layer_ok a) ls ->
+    validate_vec accs ls form k <> Ok tt).
 
 Print Assumptions C09_fast_eq_iff.
 Print Assumptions C09_layer_exact.
@@ -26,3 +32,5 @@ Print Assumptions C09_first_error_is_innermost.
 Print Assumptions C09_optional_absent.
 Print Assumptions C09_optional_present.
 Print Assumptions C09_optional_placeholder.
+Print Assumptions C09_vec_accepts_iff_every_account.
+Print Assumptions C09_vec_no_account_skipped.
